@@ -95,7 +95,9 @@ func (b *balModel) afterBlock(h uint64, txs []*pb.BxhTransaction, metas []*txMet
 		if !isAdmin(from) && !isAdmin(to) && from != to {
 			dFrom := new(big.Int).Sub(b.get(from), valOr0(cur[from]))
 			dTo := new(big.Int).Sub(valOr0(cur[to]), b.get(to))
-			if rc.Status == pb.Receipt_SUCCESS {
+			if dTo.Sign() < 0 {
+				s.vio("C14", "transfer-accounting", "receiver-debited", "block %d: transfer with stated amount %q took %s from the receiver", h, td.Amount, new(big.Int).Neg(dTo))
+			} else if rc.Status == pb.Receipt_SUCCESS {
 				want := new(big.Int).Add(amt, fee)
 				if dFrom.Cmp(want) != 0 || dTo.Cmp(amt) != 0 {
 					s.vio("C14", "transfer-accounting", "success", "block %d: transfer of %s (fee %s): sender lost %s, receiver gained %s", h, amt, fee, dFrom, dTo)
